@@ -45,6 +45,7 @@ def run(repo: Repo, rep, tier: str):
     c12.pack_pairs(repo, rep, "C01", "R3")
     omission_defaults(repo, rep, "C01", secs)
     truncation_rule(repo, rep, "C01", secs)
+    none_safety(repo, rep, "C01", secs)
     slot_terminators(repo, rep, "C01")
     clone_rule(repo, rep, "C01")
     rep.sample({"section": "project", "rows": [f"{w.cid}:{w.payload.shape}:{w.payload.fmt.show() if w.payload.fmt else ''}:{w.payload.src}"
@@ -296,6 +297,75 @@ def truncation_rule(repo: Repo, rep, P: str, secs, only_sections=("project", "mo
                 if cuts and any(c != w.payload.length for c in cuts):
                     rep.violation(f"{P}.R5", wcon, txt, f"truncation limit {cuts} and padding width {w.payload.length} differ", w.where)
     rep.count("text_fields", n, 5)
+
+
+# ----------------------------------------------------------------------------- R8
+def none_safety(repo: Repo, rep, P: str, secs):
+    """An unguarded text field is encoded unconditionally: None must not be able to flow into it from library code."""
+    owners = {"project": repo.cls("Project", module="rv.project"), "module": repo.cls("Module", module="rv.modules.module"),
+              "pattern": repo.cls("Pattern", module="rv.pattern")}
+    n = 0
+    for secname, owner in owners.items():
+        for w in secs[secname].writer:
+            if w.kind != "chunk" or w.payload.shape not in ("cstring", "fixedstring", "text"):
+                continue
+            attr = next((parity.last(x) for x in w.payload.src), None)
+            if attr is None:
+                continue
+            guarded = any(attr in gd for gd in w.guards)
+            if guarded:
+                continue
+            n += 1
+            wcon = f"{w.rel}:{w.fn}[{w.cid}]"
+            init = owner.methods.get("__init__")
+            assign = None
+            if init is not None:
+                for st in walk_no_nested(init):
+                    if isinstance(st, ast.Assign) and any(norm(t) == f"self.{attr}" for t in st.targets):
+                        assign = st
+            from_kw = assign is not None and isinstance(assign.value, ast.Call) and norm(assign.value.func) in ("kw.get", "kwargs.get")
+            none_filtered = False
+            if init is not None:
+                src = norm(init)
+                none_filtered = f"{attr} is None" in src or f"{attr} is not None" in src or (assign is not None and " or " in norm(assign.value))
+            if not from_kw or none_filtered:
+                rep.ok(f"{P}.R8", wcon, f"self.{attr} = {norm(assign.value) if assign is not None else '(class default)'}",
+                       "None cannot arrive through a constructor keyword" if not from_kw else "constructor replaces None by the default")
+                continue
+            # constructor takes the keyword verbatim: every library call site passing it must pass a non-None value
+            bad = []
+            for rel, sf in sorted(repo.files.items()):
+                if not sf.modname.startswith("rv") or sf.modname.startswith("rv.tools"):
+                    continue
+                for fn in [x for x in ast.walk(sf.tree) if isinstance(x, (ast.FunctionDef, ast.AsyncFunctionDef))]:
+                    defaults = {}
+                    a = fn.args
+                    pos = a.posonlyargs + a.args
+                    for arg, d in zip(pos[len(pos) - len(a.defaults):], a.defaults):
+                        defaults[arg.arg] = d
+                    for arg, d in zip(a.kwonlyargs, a.kw_defaults):
+                        if d is not None:
+                            defaults[arg.arg] = d
+                    for c in walk_no_nested(fn):
+                        if isinstance(c, ast.Call):
+                            for kw in c.keywords:
+                                if kw.arg == attr:
+                                    v = kw.value
+                                    is_none = (isinstance(v, ast.Constant) and v.value is None) or \
+                                        (isinstance(v, ast.Name) and v.id in defaults and isinstance(defaults[v.id], ast.Constant)
+                                         and defaults[v.id].value is None
+                                         and not any(isinstance(t, ast.If) and f"{v.id} is None" in norm(t.test) for t in walk_no_nested(fn)))
+                                    if is_none:
+                                        bad.append((rel, fn.name, c))
+            if bad:
+                for rel, fname, c in bad:
+                    rep.violation(f"{P}.R8", f"{rel}:{fname}", norm(c)[:120],
+                                  f"`{attr}=None` is passed on to a constructor that stores the keyword verbatim; {w.cid} is written with "
+                                  f"`{attr}.encode(...)` unconditionally, so the project can no longer be saved (AttributeError)",
+                                  f"{rel}:{c.lineno}")
+            else:
+                rep.ok(f"{P}.R8", wcon, f"self.{attr} = {norm(assign.value)}", "no library call site passes None for this keyword")
+    rep.count("unguarded_text_fields", n, 2)
 
 
 # ----------------------------------------------------------------------------- R6
